@@ -107,6 +107,9 @@ func markerOpen() bool {
 	if witnessing.Load() {
 		return false
 	}
+	if !findingListed(markerKey) {
+		return false // not listed as open in $VERIF_KNOWN: the check stays strict
+	}
 	markerOnce.Do(func() {
 		witnessing.Store(true)
 		defer witnessing.Store(false)
